@@ -80,6 +80,9 @@ class Case:
         # identities are compared without regard to case: in every third history the peers spell their Origin-Host
         # with capitals (a function of the history, so that a replay does the same)
         self.caps = h64("caps", start, tuple(script)) % 3 == 0
+        # what a successful exchange advertises (again a function of the history): the applications configured for the
+        # peer, or - a relay agent - the relay application only, in CER and CEA alike (a relay is a common peer, RFC 6733 2.4)
+        self.relay = h64("relay", start, tuple(script)) % 3 == 1
 
     def witness(self, key, detail):
         rp = {"start": self.start, "script": self.script}
@@ -129,6 +132,10 @@ class Case:
             hbh, e2e = self.ids()
             name = g.cer_name if a != "cer_unknown" else "stranger.verif.example"
             auth, acct = ([4], [3]) if a != "cer_nocommon" else ([999], [])
+            if self.relay and a == "cer_ok":
+                auth, acct = [0xffffffff], []
+                self.run.cov["exchanges_advertising_the_relay_application_only"] = \
+                    self.run.cov.get("exchanges_advertising_the_relay_application_only", 0) + 1
             spelled = ".".join(x.capitalize() for x in name.split(".")) if self.caps else name
             if self.caps:
                 self.run.cov["cer_with_capitals"] = self.run.cov.get("cer_with_capitals", 0) + 1
@@ -143,7 +150,12 @@ class Case:
             cer = [f for f in g.sp.frames if f.h.code == 257 and f.is_request]
             if not cer:
                 return False
-            g.sp.send(M.cea(NAMES[0], self.REALM, result=2001 if a == "cea_ok" else 5010, auth=[4], acct=[3],
+            relay = self.relay and a == "cea_ok"
+            if relay:
+                self.run.cov["exchanges_advertising_the_relay_application_only"] = \
+                    self.run.cov.get("exchanges_advertising_the_relay_application_only", 0) + 1
+            g.sp.send(M.cea(NAMES[0], self.REALM, result=2001 if a == "cea_ok" else 5010,
+                            auth=[0xffffffff] if relay else [4], acct=[] if relay else [3],
                             hbh=cer[-1].h.hbh, e2e=cer[-1].h.e2e))
             g.cea_sent = True
         elif a == "dpr":
